@@ -10,6 +10,7 @@ props = [json.loads(l) for l in (V / "properties.jsonl").read_text().splitlines(
 CLAIMED = {
     "C10": (
         ["PageStore", "MC_PageStore", "Gen_PageStore", "Trace_PageStore"],
+        "namespace tables of the shipped language configurations as the model's constant (prefix tables derived by TLC: Gen_PageStore_M); Apalache inductive invariant for memo coherence (spec/apalache/PageStoreInd.tla, thorough tier); "
         "TLA+ state machine of the page store (rows, pending/committed, get_page memo) checked by TLC; "
         "the add/lookup histories of the repository's own test-suite (recorded per context) validated by Trace_PageStore; "
         "TLC-generated add/redirect/commit histories with reference lookup tables replayed into a real Wtp+SQLite file; "
@@ -69,6 +70,7 @@ CLAIMED = {
     ),
     "C20": (
         ["Workers", "MC_Workers", "Gen_Workers", "Trace_Workers"],
+        "transaction state per connection (NoIdleTransaction) and the three-worker bootstrap race; Apalache inductive invariants for the lock core and LockWait (spec/apalache/WorkersLockInd.tla, LockWaitInd.tla, thorough tier); "
         "TLA+ model of N worker processes (start-up restore steps, connect, schema, reads, bootstrap-page write, commit, close; the creating context as a process that only closes) under SQLite locking and checkpoint rules (WAL, and rollback-journal mode for databases whose provenance - restored from a backup, header mode dropped - leaves them in it; the journal mode is state every open re-establishes); TLC explores all interleavings of 2-3 workers and every placement of the closes; "
         "TLC-generated schedules are replayed on real forked processes under harness-side schedule control (wrappers on os/sqlite3 operations), recorded (process, op, result) traces validated by a TLC trace spec; free-running stress with 2..16 workers",
         "Bounded-exhaustive interleavings in the model; schedule replay + trace validation on the real code; stress runs. Two listed findings (restore race on start-up, bootstrap write under an open cursor) are reported as KNOWN-FINDING; any failure not explained by them is a VIOLATION.",
@@ -77,6 +79,7 @@ CLAIMED = {
     ),
     "C17": (
         ["Analyze", "MC_Analyze", "Gen_Analyze", "Trace_Analyze"],
+        "Apalache inductive invariant for the worklist (marked = least closure; spec/apalache/AnalyzeInd.tla, thorough tier); "
         "TLA+ state machine of analyze_templates (classifier pass, included_map, worklist, cache clearing, the two redirect updates) over PageStore; TLC checks termination and marked = least closure + redirect neighbours; "
         "all inclusion graphs up to the bound x flag sets x redirect placements x name spellings run on the real analyze_templates; random 8-template worlds recorded and validated by TLC; a call may start from earlier marks (add_page(need_pre_expand=True), an earlier analysis, an overwrite file) and histories add / analyse / overwrite / analyse again are model-checked (Rerun) and replayed / recorded",
         "Bounded-exhaustive (<=3 templates quick, <=4 thorough, simulated 8-template worlds) model checking plus conformance of the real need_pre_expand marks on every generated world and on recorded random worlds.",
@@ -127,7 +130,8 @@ CLAIMED = {
     ),
     "C06": (
         ["SandboxReach", "MC_SandboxReach", "Gen_SandboxReach", "SandboxGate", "MC_SandboxGate", "Gen_SandboxGate", "Trace_SandboxGate",
-         "SandboxReachLoad", "MC_SandboxReachLoad", "Gen_SandboxReachLoad"],
+         "SandboxReachLoad", "MC_SandboxReachLoad", "Gen_SandboxReachLoad", "SandboxReachStack", "MC_SandboxReachStack", "Gen_SandboxReachStack"],
+        "SandboxReachStack models the sandbox bookkeeping (environment stack, caches) as attacker-controlled state: page code calls the exported helpers with hostile arguments before an entry point is used, invariant StackConfined; "
         "TLA+ attacker model (set of held references, Next = follow an edge) instantiated on every run with the object graph extracted from the LIVE sandbox (tables, metatables, require() results, attributes of reachable Python objects per the attribute filter); "
         "TLC computes reachability of forbidden capabilities; every TLC path is compiled to a Lua probe and executed through #invoke; an attack corpus is executed for real and must be covered by the model; "
         "SandboxGate models the attribute gate of the Lua-Python bridge over HISTORIES of lookups (gate memory, objects with lifetimes): TLC enumerates every bounded history with the demanded answers, each is run in a fresh context, random longer histories are validated by TLC; "
